@@ -9,6 +9,13 @@ for f in sorted(glob.glob(V+'/measurements/thorough_timing_*.txt')):
     for l in open(f):
         m=re.match(r'(C\d+) thorough (\S+) (.*?): rc=(\d+) (\d+)s paths=(\d+)', l)
         if m: timing[(m.group(1), m.group(2), m.group(3).strip())]=(int(m.group(5)), int(m.group(6)), int(m.group(4)))
+# full thorough runs (bin/check output): "[C01 thorough] H_x map[K:1 L:2]: paths=.. wall=12.3s"
+for f in sorted(glob.glob(V+'/measurements/thorough_run_*.log')):
+    for l in open(f):
+        m=re.match(r'\[(C\d+) thorough\] (H_\w+) map\[(.*?)\]: paths=(\d+) .* wall=([\d.]+)s', l)
+        if m:
+            params=dict(kv.split(':') for kv in m.group(3).split()) if m.group(3) else {}
+            timing[(m.group(1), m.group(2), frozenset(params.items()))]=(int(float(m.group(5))+0.5), int(m.group(4)), 0)
 def fmt(h):
     p=h.get('params',{})
     return h['func'][2:]+('{'+','.join('%s=%s'%kv for kv in p.items())+'}' if p else '')
@@ -24,6 +31,7 @@ for e in sorted(checks,key=lambda e:e['id']):
     th=[]
     for h in e['thorough']:
         key=(e['id'],h['func'],' '.join('%s=%s'%kv for kv in h.get('params',{}).items()))
-        t=timing.get(key)
+        key2=(e['id'],h['func'],frozenset((k,str(v)) for k,v in h.get('params',{}).items()))
+        t=timing.get(key2) or timing.get(key)
         th.append(fmt(h)+(' (%ds)'%t[0] if t else ''))
     print('| %s | %s | %s | %s | %s |'%(e['id'],'; '.join(fmt(h) for h in e['quick']),paths,wall,'; '.join(th)))
